@@ -9,4 +9,6 @@ mod unique_vars;
 
 pub use basic_block::BasicBlock;
 pub use cfg::{Cfg, DefinitionType, Index};
+#[cfg(feature = "verif")]
+pub use cfg::verif;
 pub use lifting::IntoCfg;
